@@ -31,6 +31,7 @@ class Node:
         self.pw = hx(cfg.get("pw", ""))
         self.ida, self.idb, self.ids = hx(cfg.get("idA", "")), hx(cfg.get("idB", "")), hx(cfg.get("idS", ""))
         self.pset = cfg.get("pset", 0)
+        self.host = cfg.get("host", 0)
         self.impl = cfg.get("impl", "real")
         self.entropy = EntropySource(cfg.get("entropy"))
         self.inst = None          # volatile
@@ -54,8 +55,11 @@ class Node:
     def mparams(self, pset=None):
         return worlds.model_params(self.world.psets[self.cur_pset if pset is None else pset])
 
+    def lib(self):
+        return self.world.host_lib(self.host)
+
     def lparams(self, pset=None):
-        return worlds.lib_params(self.world.psets[self.cur_pset if pset is None else pset])
+        return worlds.lib_params(self.world.psets[self.cur_pset if pset is None else pset], self.lib())
 
     def make_spec(self, cls=None, pset=None):
         return SpecNode(cls or self.cls, self.pw, self.ida, self.idb, self.ids, params=self.mparams(pset))
@@ -65,6 +69,12 @@ class World:
     def __init__(self, config, shadow=True):
         self.lib = loader.load()
         self.lib.trip._ctr = 0        # the tripwire's answer stream restarts with every run
+        # hosts = simulated processes.  By default every node lives in the worker's long-running
+        # default copy of the library; a scenario with "fresh_hosts" gives every host its own
+        # brand-new copy (so the run is self-contained) and may `reboot` a host.
+        self.fresh_hosts = bool(config.get("fresh_hosts"))
+        self.hosts = {} if self.fresh_hosts else {0: self.lib}
+        self.reboots = 0
         self.config = config
         self.psets = config["psets"]
         self.shadow = shadow
@@ -76,6 +86,30 @@ class World:
         self.probes = {}
         self.skipped = 0
         self.findings = []        # filled by oracles
+
+    def host_lib(self, h):
+        if h not in self.hosts:
+            self.hosts[h] = loader.load_fresh() if self.fresh_hosts else self.lib
+        return self.hosts[h]
+
+    def op_reboot(self, step):
+        """the whole simulated process dies: every live instance on the host is gone and so
+        is all module-level state; only the durable slots survive"""
+        h = step.get("host", 0)
+        down = []
+        for n in self.nodes:
+            if n.host == h and n.inst is not None and n.impl == "real":
+                n.inst = None
+                n.crashes += 1
+                n.calls = []
+                if n.slot is None:
+                    n.lost = True
+                down.append(n.idx)
+        if self.fresh_hosts:
+            self.hosts[h] = loader.load_fresh()
+        self.reboots += 1
+        self.probe("host-reboot")
+        return self.log(step, "down", host=h, nodes=down)
 
     # accounting wrapper around every library call -----------------------------------
     def _call(self, node, api, fn, *args):
@@ -120,7 +154,7 @@ class World:
         if n.impl == "model":
             n.inst = "model"
             return self.log(step, "ok")
-        K = self.lib.classes[n.cls]
+        K = n.lib().classes[n.cls]
         P = n.lparams()
         if n.cls == "S":
             r = self._call(n, "init", lambda: K(n.pw, idSymmetric=n.ids, params=P, entropy_f=n.entropy))
@@ -276,8 +310,8 @@ class World:
             n.calls = [("restore", "inst")]
             n.model_out = spec.out
             return self.log(step, "inst", dg(spec.out))
-        K = self.lib.classes[cls]
-        P = worlds.lib_params(self.psets[pset])
+        K = n.lib().classes[cls]
+        P = worlds.lib_params(self.psets[pset], n.lib())
         r = self._call(n, "from_serialized", lambda: K.from_serialized(n.slot, params=P))
         if r[0] == "exc":
             return self.log(step, "exc:" + r[1])
@@ -402,7 +436,7 @@ class World:
                 n.calls.append(("serialize", "exc:" + r[1]))
                 return self.log(step, "exc:" + r[1], what=what, phase="serialize")
             blob = r[1]
-            K = self.lib.classes[n.cur_cls]
+            K = n.lib().classes[n.cur_cls]
             P = n.lparams()
             r2 = self._call(n, "from_serialized", lambda: K.from_serialized(blob, params=P))
             if r2[0] == "exc":
@@ -461,7 +495,7 @@ class World:
         """offer a byte string directly to params.group.bytes_to_element"""
         pset = step.get("pset", 0)
         b = self.resolve_body(step["body"], pset)
-        G = worlds.lib_params(self.psets[pset]).group
+        G = worlds.lib_params(self.psets[pset], self.host_lib(step.get("host", 0))).group
         try:
             e = G.bytes_to_element(b)
             back = e.to_bytes()
